@@ -54,17 +54,18 @@ pub fn run(cfg: &RunCfg) -> Ctx {
         }
     }
     let n_ex = scripts.len() as u64;
-    let take = if cfg.thorough { n_ex } else { n_ex.min(300) };
+    let take = n_ex; // the enumerated space is small enough to walk completely in both tiers
     let scripts = Arc::new(scripts);
     let sc = scripts.clone();
     let thorough = cfg.thorough;
     all.merge(par_cases(cfg, "enumerated", take, || (), move |_, rng, ctx, i| {
         // quick: a seeded sample of the enumerated space; thorough: all of it
-        let idx = if thorough { i as usize } else { rng.usize_below(sc.len()) };
+        let _ = thorough;
+        let idx = i as usize;
         let (lazy, o, p) = sc[idx].clone();
         scenario(rng, ctx, lazy, o, p);
     }));
-    all.merge(par_cases(cfg, "sampled", cfg.n(300, 16 * 1500), || (), |_, rng, ctx, _| {
+    all.merge(par_cases(cfg, "sampled", cfg.n(1200, 16 * 1500), || (), |_, rng, ctx, _| {
         let lazy = rng.bool();
         let o: Vec<bool> = (0..rng.urange(0, 8)).map(|_| rng.chance(3, 5)).collect();
         let p: Vec<Op> = (0..rng.urange(1, 10)).map(|_| match rng.below(6) { 0 | 1 => Op::Kill, 2 => Op::TwoCalls, _ => Op::Call }).collect();
